@@ -27,6 +27,7 @@ type State struct {
 	unsupp  []string // unsupported constructs met on this path
 	pcSet   map[string]bool
 	locks   map[string]int // mutex typestate: 1 held for reading, 2 for writing (copy-on-write)
+	secs    map[string]int // critical sections: "#"+mutex -> sections entered so far; mutex+"|"+field -> section of its last read (copy-on-write)
 	fresh   bool           // C09: the context was consulted since the current loop iteration began
 	ops     int            // straight-line backend operations since last context check (C09)
 }
@@ -47,6 +48,7 @@ func (s *State) Clone() *State {
 		ops:     s.ops,
 		fresh:   s.fresh,
 		locks:   s.locks,
+		secs:    s.secs,
 		pcSet:   make(map[string]bool, len(s.pcSet)),
 	}
 	for k := range s.pcSet {
